@@ -318,6 +318,14 @@ fn main() { let x = Ptr(16 as *const u8); run(&x); }
     out.append(('slice_of_ptr', HEAD + PTR + RUNNER + '''
 fn main() { let v = vec![Ptr(std::ptr::null()), Ptr(8 as *const u8)]; let x: &[Ptr] = &v; run(&x); }
 ''', 'reject-or-panic'))
+    out.append(('iter_of_ptr', HEAD + PTR + RUNNER + '''
+fn main() { let v = vec![Ptr(std::ptr::null()), Ptr(8 as *const u8)]; let x = SerIter::from(v.iter()); run(&x); }
+''', 'reject-or-panic'))
+    out.append(('holder_of_iter_of_ptr', HEAD + PTR + RUNNER + '''
+#[derive(Epserde, Debug, Clone)]
+struct Holder<A> { a: A, n: u8 }
+fn main() { let v = vec![Ptr(std::ptr::null())]; let x = Holder { a: SerIter::from(v.iter()), n: 1 }; run(&x); }
+''', 'reject-or-panic'))
     # controls: valid definitions must serialise (the probe harness itself works)
     out.append(('control_valid_zero_copy', HEAD + RUNNER + '''
 #[derive(Epserde, Debug, Clone, Copy)]
